@@ -10,7 +10,8 @@ EXPLANATION = ("Coroutine-witness analysis of every task the driver spawns and o
                "resource (mpsc permit, mutex guard, semaphore permit) must not be owned across a suspension whose awaited future is "
                "paced by one peer stream (a stream read); the worker's acceptor branches (accept_uni/accept_bi/accept_datagram) await no per-stream read at all. Also: the worker loop's only suspension is its select!, handlers are "
                "synchronous; Driver accept methods hold at most their own queue's guard; queue capacities are >= 1 and the queues "
-               "are distinct channels.")
+               "are distinct channels."
+               ' Also (C07-R7/R8): acceptor branches reserve the queue slots before pulling and own no pulled stream across a later await; an I/O fault (reset, lost) on one stalled stream is not re-labelled as an H3 error that closes the connection.')
 NOT_DECIDED = ["liveness bounds", "quinn's stream scheduling and flow control"]
 TRUSTED = ["rustc coroutine layout", "reviewed resource / leaf-future tables (engine/corowit.py)", "tokio mpsc permit semantics"]
 
